@@ -20,7 +20,7 @@ TFsh == /\ IsEvent("Fsh")
         /\ Chk("NoPanic", Ev.panic = "")
         /\ Chk("FactorWithinZeroOne", (Ev.haswall /\ Ev.panic = "") => Bounded(Ev.value))
         /\ Chk("FactorIsMeanOverJulyHours",
-               (Ev.haswall /\ Ev.panic = "" /\ Ev.n > 0) => (Defined(Ev.dir, Ev.dif) /\ Fractions(Ev.sl) /\ Ev.value > -9999 /\ MeanOk(Ev.value, Ev.sl, Ev.dir, Ev.dif)))
+               (Ev.haswall /\ Ev.panic = "" /\ Ev.n > 0) => (Defined(Ev.dir, Ev.dif) /\ Fractions(Ev.sl) /\ Ev.value > -9999 /\ Ev.value <= 10000 /\ MeanOk(Ev.value, Ev.sl, Ev.dir, Ev.dif)))
         /\ Chk("SunBehindMeansNoBeam", (Ev.positioned /\ Ev.n > 0) => \A h \in 1..Ev.n : Behind(Ev.nd[h]) => Ev.sl[h] = 0)
         /\ Chk("NoPositionMeansFullySunlit", (Ev.haswall /\ ~Ev.positioned /\ Ev.n > 0) => (Ev.value = 100 /\ \A h \in 1..Ev.n : Ev.sl[h] = 1000))
         /\ Chk("PropsReportTheComputedFactor", Ev.props >= -1 => Ev.props = Ev.value)
@@ -28,7 +28,7 @@ TFsh == /\ IsEvent("Fsh")
                Ev.expect = "free" => (Ev.value >= 97 /\ \A h \in 1..Ev.n : InFront(Ev.nd[h]) => Ev.sl[h] = 1000))
         /\ Chk("HiddenAtEveryHourMeansDiffuseShare",
                Ev.expect = "hidden" => (Ev.n > 0 /\ (\A h \in 1..Ev.n : Ev.sl[h] = 0)
-                                        /\ Defined(Ev.dir, Ev.dif) /\ Ev.value > -9999 /\ MeanOk(Ev.value, [h \in 1..Ev.n |-> 0], Ev.dir, Ev.dif)))
+                                        /\ Defined(Ev.dir, Ev.dif) /\ Ev.value > -9999 /\ Ev.value <= 10000 /\ MeanOk(Ev.value, [h \in 1..Ev.n |-> 0], Ev.dir, Ev.dif)))
         /\ Chk("ExpectedNoPosition", Ev.expect = "nopos" => ~Ev.positioned)
 TMono == /\ IsEvent("Mono")
          /\ Chk("NoPanic", Ev.ok)
